@@ -23,6 +23,14 @@ import (
 	"github.com/bluenviron/mediacommon/v2/pkg/formats/mpegts"
 )
 
+// escapeQuery escapes what cannot appear inside a quoted URI attribute.
+func escapeQuery(rawQuery string) string {
+	rawQuery = strings.ReplaceAll(rawQuery, "\"", "%22")
+	rawQuery = strings.ReplaceAll(rawQuery, "\r", "%0D")
+	rawQuery = strings.ReplaceAll(rawQuery, "\n", "%0A")
+	return rawQuery
+}
+
 func filterOutHLSParams(rawQuery string) string {
 	if rawQuery != "" {
 		if q, err := url.ParseQuery(rawQuery); err == nil {
@@ -33,11 +41,8 @@ func filterOutHLSParams(rawQuery string) string {
 			}
 			rawQuery = q.Encode()
 		} else {
-			// the query cannot be parsed and is passed on as it is:
-			// escape what cannot appear inside a quoted URI attribute.
-			rawQuery = strings.ReplaceAll(rawQuery, "\"", "%22")
-			rawQuery = strings.ReplaceAll(rawQuery, "\r", "%0D")
-			rawQuery = strings.ReplaceAll(rawQuery, "\n", "%0A")
+			// the query cannot be parsed and is passed on as it is
+			rawQuery = escapeQuery(rawQuery)
 		}
 	}
 	return rawQuery
